@@ -17,12 +17,32 @@ Definition run_history (h : list hstep) (st : store) : store := fold_left do_hst
 Definition history_targets (h : list hstep) : list target :=
   flat_map (fun s => match s with HBuild _ r _ => r_targets r | HWipe => [] end) h.
 
+(* no target of the request uses tools: the Trust invariant of C01 / C02 is proved without them (the no-op and
+   cut-off theorems of C03 cover tools) *)
+Definition tool_free (r : repo) : bool :=
+  forallb (fun t => forallb (fun x => match x with STool _ => false | _ => true end) (t_srcs t)) (r_targets r).
+
 (* every build is of a well-formed request: see wf_repo / distinct_srcs in Model/Engine.v *)
 Definition step_wf (s : hstep) : bool :=
   match s with
-  | HBuild _ r req => wf_repo (restrict r req) && distinct_srcs (restrict r req)
+  | HBuild _ r req => wf_repo (restrict r req) && distinct_srcs (restrict r req) && tool_free (restrict r req)
   | HWipe => true
   end.
+
+(* the trees the filegroups of the history link: files, or whole source directories *)
+Definition fg_srcs_of (s : hstep) : list node :=
+  match s with
+  | HBuild _ r req =>
+      flat_map (fun t => if is_filegroup t
+                         then flat_map (fun f => match fg_src r (join (t_pkg t) f) with Some n => [n] | None => [] end) (outputs t)
+                         else []) (r_targets (restrict r req))
+  | HWipe => []
+  end.
+Definition history_fg_srcs (h : list hstep) : list node := flat_map fg_srcs_of h.
+(* no filegroup of the history has a DIRECTORY source: the path hash of a directory is not injective (the known
+   defect class of directory outputs reaches filegroups of directories the same way); executable *)
+Definition fg_dir_free (h : list hstep) : bool :=
+  forallb (fun n => match n with File _ _ => true | Dir _ => false end) (history_fg_srcs h).
 Definition cache_free (h : list hstep) : bool :=
   forallb (fun s => match s with HBuild c _ _ => negb c | HWipe => true end) h.
 
